@@ -1,7 +1,15 @@
 (* Properties/C06.v — bisection: a returned root is a root in the bracket; the sign change is kept.
-   Statements only; every proof is `exact` of a lemma of Proofs/Bisect.v.  Unless a statement
-   quantifies over the instance, it is about the R instance of the model (exact arithmetic);
-   float behaviour is measured by the correspondence check. *)
+   Statements only; every proof is `exact` of a lemma of Proofs/Bisect.v (exact arithmetic, every
+   instance) or Proofs/BisectionFloat.v (the executed binary64 instance).
+   EXACT (T := R) unless the statement quantifies over the instance: soundness, rejection of a bad
+   initial guess, the sign-change invariant, the partial converse and the converse away from 0.
+   EVERY INSTANCE (floats included): totality (c06_total, c06_total_poly).
+   FLOAT (T := float, last block of the file, names c06_float_...): SOUNDNESS for an arbitrary target -
+   an Ok result is finite, inside the caller's bracket, and its float residual is finite and below
+   the float gate fl(1e-4); the bracket invariant of the loop; the midpoint lemma; the float reading of
+   the range test (a passing guess is finite and inside), the rejection of a reversed bracket for every guess and
+   of a NaN guess for any bounds, and the regression of the repaired NaN hole (5439521).
+   NOT proved at the float level: the converse (a root is found), which stays exact-arithmetic + oracle; the correspondence check measures model = code bit for bit. *)
 From Coq Require Import ZArith List Reals Lra Lia Bool.
 From SV Require Import Base.Num Base.Outcome Model.Poly Model.Solvers Proofs.Bisect.
 Import ListNotations.
@@ -211,3 +219,174 @@ Example c06_nonvacuous_away_from_zero :
   exists x, bisection (s_eval_univariate px2m4) {| b_lower := 1; b_init := 2; b_upper := 3 |} (1 / 10000) 100 = Ok x /\
             1 <= x <= 3 /\ Rabs (eval_simple px2m4 x) < 1 / 10000.
 Proof. exact Proofs.Bisect.c06_example_away_from_zero. Qed.
+
+(* ======================================================================================== *)
+(* THE EXECUTED INSTANCE (T := float, Coq primitive binary64 = Rust f64), target f ARBITRARY.
+   Reals are read through Flocq: B2R (Prim2B x); proofs in Proofs/BisectionFloat.v.          *)
+From Coq Require Import Floats.
+From Flocq Require Import Core BinarySingleNaN PrimFloat.
+From SV Require Import Proofs.BisectionFloat.
+
+(* the computed midpoint fl(fl(a+b)/2) of finite a <= b with |a|, |b| < 2^1023 is finite and lies in [a, b]
+   (monotone rounding, 2a and 2b representable; subnormals included) *)
+Theorem c06_float_midpoint_between : forall a b : PrimFloat.float,
+  is_finite (Prim2B a) = true -> is_finite (Prim2B b) = true ->
+  Rabs (B2R (Prim2B a)) < bpow radix2 1023 -> Rabs (B2R (Prim2B b)) < bpow radix2 1023 ->
+  B2R (Prim2B a) <= B2R (Prim2B b) ->
+  is_finite (Prim2B (PrimFloat.div (PrimFloat.add a b) (@ntwo PrimFloat.float FNum))) = true /\
+  B2R (Prim2B a) <= B2R (Prim2B (PrimFloat.div (PrimFloat.add a b) (@ntwo PrimFloat.float FNum)))
+                 <= B2R (Prim2B b).
+Proof. exact Proofs.BisectionFloat.midpoint_between. Qed.
+Check c06_float_midpoint_between : forall a b : PrimFloat.float,
+  is_finite (Prim2B a) = true -> is_finite (Prim2B b) = true ->
+  Rabs (B2R (Prim2B a)) < bpow radix2 1023 -> Rabs (B2R (Prim2B b)) < bpow radix2 1023 ->
+  B2R (Prim2B a) <= B2R (Prim2B b) ->
+  is_finite (Prim2B (PrimFloat.div (PrimFloat.add a b) (@ntwo PrimFloat.float FNum))) = true /\
+  B2R (Prim2B a) <= B2R (Prim2B (PrimFloat.div (PrimFloat.add a b) (@ntwo PrimFloat.float FNum)))
+                 <= B2R (Prim2B b).
+Print Assumptions c06_float_midpoint_between.
+
+(* the bracket invariant of the float loop: whatever f returns (NaN included) and whatever the fuel, the
+   final bracket is finite, ordered, inside [lo, hi], and the candidate is finite and inside the bracket *)
+Theorem c06_float_bracket_inv : forall (f : PrimFloat.float -> res PrimFloat.float) lo init hi tol cap fuel r,
+  is_finite (Prim2B lo) = true -> is_finite (Prim2B hi) = true ->
+  Rabs (B2R (Prim2B lo)) < bpow radix2 1023 -> Rabs (B2R (Prim2B hi)) < bpow radix2 1023 ->
+  B2R (Prim2B lo) <= B2R (Prim2B hi) ->
+  @bis_loop PrimFloat.float FNum f tol cap fuel (bis_start {| b_lower := lo; b_init := init; b_upper := hi |}) = Ok r ->
+  is_finite (Prim2B (bs_lower r)) = true /\ is_finite (Prim2B (bs_upper r)) = true /\
+  is_finite (Prim2B (bs_x r)) = true /\
+  B2R (Prim2B lo) <= B2R (Prim2B (bs_lower r)) /\
+  B2R (Prim2B (bs_lower r)) <= B2R (Prim2B (bs_x r)) <= B2R (Prim2B (bs_upper r)) /\
+  B2R (Prim2B (bs_upper r)) <= B2R (Prim2B hi).
+Proof. exact Proofs.BisectionFloat.bis_float_bracket_inv. Qed.
+Check c06_float_bracket_inv : forall (f : PrimFloat.float -> res PrimFloat.float) lo init hi tol cap fuel r,
+  is_finite (Prim2B lo) = true -> is_finite (Prim2B hi) = true ->
+  Rabs (B2R (Prim2B lo)) < bpow radix2 1023 -> Rabs (B2R (Prim2B hi)) < bpow radix2 1023 ->
+  B2R (Prim2B lo) <= B2R (Prim2B hi) ->
+  @bis_loop PrimFloat.float FNum f tol cap fuel (bis_start {| b_lower := lo; b_init := init; b_upper := hi |}) = Ok r ->
+  is_finite (Prim2B (bs_lower r)) = true /\ is_finite (Prim2B (bs_upper r)) = true /\
+  is_finite (Prim2B (bs_x r)) = true /\
+  B2R (Prim2B lo) <= B2R (Prim2B (bs_lower r)) /\
+  B2R (Prim2B (bs_lower r)) <= B2R (Prim2B (bs_x r)) <= B2R (Prim2B (bs_upper r)) /\
+  B2R (Prim2B (bs_upper r)) <= B2R (Prim2B hi).
+Print Assumptions c06_float_bracket_inv.
+
+(* ... the same from ANY state with a finite ordered bracket inside [lo, hi] (so it holds at every state the
+   loop passes through: a loop from an intermediate state is a loop); bis_inv0 / bis_inv are the two
+   conjunctions above, defined in Proofs/BisectionFloat.v *)
+Theorem c06_float_bracket_inv_any_state : forall (f : PrimFloat.float -> res PrimFloat.float) tol cap lo hi,
+  Rabs (B2R (Prim2B lo)) < bpow radix2 1023 -> Rabs (B2R (Prim2B hi)) < bpow radix2 1023 ->
+  (forall s s' brk, bis_inv0 lo hi s -> bis_body f tol cap s = Ok (s', brk) -> bis_inv lo hi s') /\
+  (forall fuel s r, bis_inv0 lo hi s -> bis_loop f tol cap fuel s = Ok r -> bis_inv lo hi r).
+Proof. exact (fun f tol cap lo hi Mlo Mhi =>
+   conj (Proofs.BisectionFloat.bis_body_float_inv f tol cap lo hi Mlo Mhi)
+        (Proofs.BisectionFloat.bis_loop_float_inv f tol cap lo hi Mlo Mhi)). Qed.
+Check c06_float_bracket_inv_any_state : forall (f : PrimFloat.float -> res PrimFloat.float) tol cap lo hi,
+  Rabs (B2R (Prim2B lo)) < bpow radix2 1023 -> Rabs (B2R (Prim2B hi)) < bpow radix2 1023 ->
+  (forall s s' brk, bis_inv0 lo hi s -> bis_body f tol cap s = Ok (s', brk) -> bis_inv lo hi s') /\
+  (forall fuel s r, bis_inv0 lo hi s -> bis_loop f tol cap fuel s = Ok r -> bis_inv lo hi r).
+Print Assumptions c06_float_bracket_inv_any_state.
+
+(* SOUNDNESS of the executed solver: an Ok result is a finite float inside the caller's bracket whose float
+   residual passed the gate (f x = Ok v, v finite - not a NaN, not an infinity - and |v| < gate as reals).
+   Hypotheses: finite ends below 2^1023 in magnitude (lo + hi cannot overflow).  Nothing is assumed about
+   the initial guess or the order of the ends: an accepted guess is not a NaN (range test as of 5439521),
+   hence inside, hence lo <= hi.  Before that repair the theorem needed "init is not a NaN or lo <= hi"
+   (see c06_float_nan_init_repaired). *)
+Theorem c06_float_sound : forall (f : PrimFloat.float -> res PrimFloat.float) lo init hi tol cap x,
+  is_finite (Prim2B lo) = true -> is_finite (Prim2B hi) = true ->
+  Rabs (B2R (Prim2B lo)) < bpow radix2 1023 -> Rabs (B2R (Prim2B hi)) < bpow radix2 1023 ->
+  @bisection PrimFloat.float FNum f {| b_lower := lo; b_init := init; b_upper := hi |} tol cap = Ok x ->
+  is_finite (Prim2B x) = true /\
+  B2R (Prim2B lo) <= B2R (Prim2B x) <= B2R (Prim2B hi) /\
+  exists v, f x = Ok v /\
+            PrimFloat.ltb (PrimFloat.abs v) (@gate PrimFloat.float FNum) = true /\
+            is_finite (Prim2B v) = true /\
+            Rabs (B2R (Prim2B v)) < B2R (Prim2B (@gate PrimFloat.float FNum)).
+Proof. exact Proofs.BisectionFloat.bisection_float_sound. Qed.
+Check c06_float_sound : forall (f : PrimFloat.float -> res PrimFloat.float) lo init hi tol cap x,
+  is_finite (Prim2B lo) = true -> is_finite (Prim2B hi) = true ->
+  Rabs (B2R (Prim2B lo)) < bpow radix2 1023 -> Rabs (B2R (Prim2B hi)) < bpow radix2 1023 ->
+  @bisection PrimFloat.float FNum f {| b_lower := lo; b_init := init; b_upper := hi |} tol cap = Ok x ->
+  is_finite (Prim2B x) = true /\
+  B2R (Prim2B lo) <= B2R (Prim2B x) <= B2R (Prim2B hi) /\
+  exists v, f x = Ok v /\
+            PrimFloat.ltb (PrimFloat.abs v) (@gate PrimFloat.float FNum) = true /\
+            is_finite (Prim2B v) = true /\
+            Rabs (B2R (Prim2B v)) < B2R (Prim2B (@gate PrimFloat.float FNum)).
+Print Assumptions c06_float_sound.
+
+(* the float gate is the binary64 number nearest to the source literal 1e-4 (re-read on every run):
+   7378697629483821 * 2^-66 = 1e-4 + 4.8e-21 *)
+Theorem c06_float_gate_value :
+  is_finite (Prim2B (@gate PrimFloat.float FNum)) = true /\
+  B2R (Prim2B (@gate PrimFloat.float FNum)) = IZR 7378697629483821 * bpow radix2 (-66) /\
+  1 / 10000 < B2R (Prim2B (@gate PrimFloat.float FNum)) < 1 / 10000 + 1 / 10 ^ 20.
+Proof. exact Proofs.BisectionFloat.gate_float_value. Qed.
+Check c06_float_gate_value :
+  is_finite (Prim2B (@gate PrimFloat.float FNum)) = true /\
+  B2R (Prim2B (@gate PrimFloat.float FNum)) = IZR 7378697629483821 * bpow radix2 (-66) /\
+  1 / 10000 < B2R (Prim2B (@gate PrimFloat.float FNum)) < 1 / 10000 + 1 / 10 ^ 20.
+Print Assumptions c06_float_gate_value.
+
+(* what the range test `init.is_nan() || init < lo || hi < init` gives on floats: a guess that passes is finite
+   (not a NaN, not an infinity) and inside *)
+Theorem c06_float_init_in : forall lo init hi : PrimFloat.float,
+  is_finite (Prim2B lo) = true -> is_finite (Prim2B hi) = true ->
+  @init_out PrimFloat.float FNum {| b_lower := lo; b_init := init; b_upper := hi |} = false ->
+  is_finite (Prim2B init) = true /\ B2R (Prim2B lo) <= B2R (Prim2B init) <= B2R (Prim2B hi).
+Proof. exact Proofs.BisectionFloat.init_in_float. Qed.
+Check c06_float_init_in : forall lo init hi : PrimFloat.float,
+  is_finite (Prim2B lo) = true -> is_finite (Prim2B hi) = true ->
+  @init_out PrimFloat.float FNum {| b_lower := lo; b_init := init; b_upper := hi |} = false ->
+  is_finite (Prim2B init) = true /\ B2R (Prim2B lo) <= B2R (Prim2B init) <= B2R (Prim2B hi).
+Print Assumptions c06_float_init_in.
+
+(* a reversed finite bracket is rejected for EVERY initial guess, NaN included (float counterpart of c06_reversed_rejected) *)
+Theorem c06_float_reversed_rejected : forall (f : PrimFloat.float -> res PrimFloat.float) lo init hi tol cap,
+  is_finite (Prim2B lo) = true -> is_finite (Prim2B hi) = true ->
+  B2R (Prim2B hi) < B2R (Prim2B lo) ->
+  @bisection PrimFloat.float FNum f {| b_lower := lo; b_init := init; b_upper := hi |} tol cap = Err EXInitOutOfBounds.
+Proof. exact Proofs.BisectionFloat.bisection_float_reversed_rejected. Qed.
+Check c06_float_reversed_rejected : forall (f : PrimFloat.float -> res PrimFloat.float) lo init hi tol cap,
+  is_finite (Prim2B lo) = true -> is_finite (Prim2B hi) = true ->
+  B2R (Prim2B hi) < B2R (Prim2B lo) ->
+  @bisection PrimFloat.float FNum f {| b_lower := lo; b_init := init; b_upper := hi |} tol cap = Err EXInitOutOfBounds.
+Print Assumptions c06_float_reversed_rejected.
+
+(* a NaN initial guess is rejected whatever the bounds are (NaN and infinite bounds included) *)
+Theorem c06_float_nan_init_rejected : forall (f : PrimFloat.float -> res PrimFloat.float) lo init hi tol cap,
+  is_nan (Prim2B init) = true ->
+  @bisection PrimFloat.float FNum f {| b_lower := lo; b_init := init; b_upper := hi |} tol cap = Err EXInitOutOfBounds.
+Proof. exact Proofs.BisectionFloat.bisection_float_nan_init_rejected. Qed.
+Check c06_float_nan_init_rejected : forall (f : PrimFloat.float -> res PrimFloat.float) lo init hi tol cap,
+  is_nan (Prim2B init) = true ->
+  @bisection PrimFloat.float FNum f {| b_lower := lo; b_init := init; b_upper := hi |} tol cap = Err EXInitOutOfBounds.
+Print Assumptions c06_float_nan_init_rejected.
+
+(* REGRESSION of a repaired finding.  The range test used to be `init < lo || hi < init`: both comparisons are false
+   on a NaN, so a NaN guess was accepted even with a REVERSED bracket.  The hole was found while proving
+   c06_float_sound (the theorem needed "init is not a NaN or lo <= hi"), shown on the real code - Ok(5.0) for x - 5
+   on [5, 1] with a NaN guess - and repaired in the crate by commit 5439521 (`x_curr.is_nan() || ...`).  The same
+   inputs in the model (lo = 5, hi = 1, init = NaN, target constantly 0; before: Ok 5) are now rejected. *)
+Theorem c06_float_nan_init_repaired :
+  @bisection PrimFloat.float FNum (fun _ => Ok 0%float)
+     {| b_lower := 0x1.4p+2%float; b_init := PrimFloat.nan; b_upper := 0x1p+0%float |} 0x1p-20%float 100
+  = Err EXInitOutOfBounds.
+Proof. exact Proofs.BisectionFloat.nan_init_reversed_bracket_rejected. Qed.
+Check c06_float_nan_init_repaired :
+  @bisection PrimFloat.float FNum (fun _ => Ok 0%float)
+     {| b_lower := 0x1.4p+2%float; b_init := PrimFloat.nan; b_upper := 0x1p+0%float |} 0x1p-20%float 100
+  = Err EXInitOutOfBounds.
+Print Assumptions c06_float_nan_init_repaired.
+
+(* non-vacuity of c06_float_sound, computed: x*x - 2 on [0, 2] from 1, tol 1e-6 (percent), cap 100 returns
+   Ok ex_root with 0x1.6a09e6p+0 < ex_root < 0x1.6a09e8p+0 (sqrt 2 = 0x1.6a09e667f3bcdp+0), and every
+   hypothesis of the theorem holds for these bounds *)
+Example c06_float_nonvacuous :
+  @bisection PrimFloat.float FNum ex_f
+     {| b_lower := 0%float; b_init := 0x1p+0%float; b_upper := 0x1p+1%float |} ex_tol 100 = Ok ex_root /\
+  PrimFloat.ltb 0x1.6a09e6p+0%float ex_root = true /\ PrimFloat.ltb ex_root 0x1.6a09e8p+0%float = true /\
+  is_finite (Prim2B 0%float) = true /\ is_finite (Prim2B 0x1p+1%float) = true /\
+  Rabs (B2R (Prim2B 0%float)) < bpow radix2 1023 /\ Rabs (B2R (Prim2B 0x1p+1%float)) < bpow radix2 1023.
+Proof. exact Proofs.BisectionFloat.bisection_float_example. Qed.
